@@ -188,7 +188,28 @@ def _value_event(via, q, real_cls, m, pin, got):
         a = L.record_to_abstract(m['fields'], got, pin)
     except L.ShapeError as exc:
         return dict(ev='deser', via=via, ok=False, exc=f'result not of the pinned shape: {exc}'[:200], cls=name)
+    _consume(got)
     return dict(ev='deser', via=via, ok=True, cls=name, v=a)
+
+
+def _consume(obj, depth=0):
+    """What an application may do with a decoded message once it owns it: change the lists it was
+    handed in place.  A decoder that shares mutable objects between results (a cached empty list,
+    a reused buffer) then shows up in the NEXT decoded value."""
+    import dataclasses
+    if depth > 4 or obj is None:
+        return
+    if isinstance(obj, list):
+        for x in obj[:4]:
+            _consume(x, depth + 1)
+        obj.append('<appended by the consumer of an earlier message>')
+        return
+    if dataclasses.is_dataclass(obj) and not isinstance(obj, type):
+        for f in dataclasses.fields(obj):
+            try:
+                _consume(getattr(obj, f.name), depth + 1)
+            except Exception:
+                pass
 
 
 class _OutOfDomain:
